@@ -7,7 +7,7 @@ import hashlib, json, os, subprocess, sys
 REPO = os.environ.get('VERIF_REPO', '/repo')
 SRC = os.path.join(REPO, 'src', 'qtlogger')
 VERIF = os.path.dirname(os.path.dirname(os.path.abspath(__file__)))
-CACHE = os.path.join(VERIF, 'build', 'astcache')
+CACHE = os.path.join(os.environ.get('VERIF_BUILD', os.path.join(VERIF, 'build')), 'astcache')
 FLAGS = ['-std=gnu++17', '-fPIC', '-fsyntax-only', '-w',
          '-I/usr/include/x86_64-linux-gnu/qt5', '-I/usr/include/x86_64-linux-gnu/qt5/QtCore',
          '-DQTLOGGER_LIBRARY', '-DQTLOGGER_STATIC', '-DQTLOGGER_SYSLOG', '-DQT_CORE_LIB',
